@@ -65,7 +65,8 @@ class ServerConfig:
         self.implementation = "SimSieve 1.0"
         self.sieve = "fileinto vacation envelope body date relational regex copy mailbox imap4flags reject variables"
         self.extra_caps = []             # [(name, value|None)]
-        self.realm = "sim.example"
+        self.realm = "sim.example"       # "" = no realm directive in the challenge
+        self.digest_qop = "auth"         # the qop-options of the digest-challenge
         self.nonce = "OA6MG9tEQGm2hh"
         self.__dict__.update(kw)
 
@@ -225,7 +226,7 @@ class SimServer:
                     code = (name, None)
             elif c == 3:
                 name = ch.srv.pick("enc.codeparam", wire.RESP_CODES_PARAM)
-                code = (name, ch.srv.pick("enc.codeparamval", [b"x", b"a b", b'q"q', b"sieve://h/", b"", b"p" * 1000, b"P" * 1024]))
+                code = (name, ch.srv.pick("enc.codeparamval", [b"x", b"a b", b'q"q', b"sieve://h/", b"", b"p" * 1000, b"P" * 1024, b"p)q", b"(x) y"]))
             t = ch.srv.weighted("enc.text", [3, 2, 1, 5])
             if t == 1:
                 text = None
@@ -355,6 +356,16 @@ class SimServer:
             rec.status = None
             r = Renderer(lambda k, v: False)
             data = r.render(Reply(None, self._cap_lines(conn)))
+            rec.raw = data
+            self.net.enqueue(conn, data, scope)
+        elif kind == "litplus":
+            # a peer that marks its own literals {n+} (only clients may): the listing is complete, its final OK carries a
+            # text whose first line reads like a status line
+            rec.status = b"OK"
+            r = Renderer(lambda k, v: False)
+            data = r.render(Reply(None, self._cap_lines(conn)))
+            text = b'OK "not the reply you are waiting for"\r\nsecond line'
+            data = data + b"OK {%d+}\r\n" % len(text) + text + b"\r\n"
             rec.raw = data
             self.net.enqueue(conn, data, scope)
         elif kind == "late":
@@ -772,7 +783,7 @@ class SimServer:
                 self.violation(conn, "DIGEST-MD5 does not take an initial response", dec.raw)
                 self._sasl_finish(conn, False, b"unexpected initial response")
                 return
-            parts = ['realm="%s"' % cfg.realm, 'nonce="%s"' % cfg.nonce, 'qop="auth"', "charset=utf-8", "algorithm=md5-sess"]
+            parts = ['realm="%s"' % cfg.realm, 'nonce="%s"' % cfg.nonce, 'qop="%s"' % cfg.digest_qop, "charset=utf-8", "algorithm=md5-sess"]
             if self.cap_variation or self.data_variation:
                 # the order of the directives of a digest-challenge is free (RFC 2831 2.1.1)
                 with self.ch.abs_scope(scope):
@@ -783,6 +794,8 @@ class SimServer:
                     parts = [parts[3], parts[4], parts[2], parts[1], parts[0]]
                 elif o == 3:
                     parts = [parts[1], parts[3], parts[0], parts[4], parts[2]]
+            if not cfg.realm:
+                parts = [x for x in parts if not x.startswith("realm=")]       # no realm offered at all
             self._challenge(conn, ",".join(parts).encode())
         else:
             # announced but not modelled (SCRAM-SHA-1, GSSAPI, ...): refuse
@@ -986,6 +999,8 @@ class SimServer:
                 ok = False
         if self.auth_hook is not None:
             ok = self.auth_hook(conn, creds, ok)
+        if "digest" in creds and "auth" not in [q.strip() for q in cfg.digest_qop.split(",")]:
+            ok = False        # the server offered only protections this exchange does not use: it refuses the response
         if ok and "digest" in creds:
             d = creds["digest"]
             pw = users[login]
